@@ -337,4 +337,147 @@ theorem wf_aux (n : Nat) : ∀ a b : Ctx, a.size ≤ n → a.WF → b.WF → (de
 theorem deepMerge_wf (a b : Ctx) (ha : a.WF) (hb : b.WF) : (deepMerge a b).WF :=
   wf_aux a.size a b (Nat.le_refl _) ha hb
 
+/-! ### contexts as functions from paths to values (key order is irrelevant) -/
+
+/-- what a path denotes: `none` = nothing there, `some none` = a mapping, `some (some v)` = the non-mapping `v` -/
+def shape : Ctx → Option String
+  | .leaf v => some v
+  | .obj _ => none
+
+def sem (c : Ctx) (ps : List String) : Option (Option String) := (getPath c ps).map shape
+
+/-- The merged context as a function of paths, computed from the two contexts as functions of paths only. -/
+def mergeSem (fa fb : List String → Option (Option String)) : List String → Option (Option String)
+  | [] => fb []
+  | k :: r =>
+    match fa [], fb [] with
+    | some none, some none =>
+      match fa [k], fb [k] with
+      | some _, some _ => mergeSem (fun q => fa (k :: q)) (fun q => fb (k :: q)) r
+      | some _, none => fa (k :: r)
+      | none, some _ => fb (k :: r)
+      | none, none => none
+    | _, _ => fb (k :: r)
+
+theorem sem_cons_obj (kvs : List (String × Ctx)) (k : String) (r : List String) :
+    sem (.obj kvs) (k :: r) = match kvs.lookup k with
+                              | some v => sem v r
+                              | none => none := by
+  simp only [sem, getPath]
+  cases kvs.lookup k <;> rfl
+
+theorem sem_deepMerge (ps : List String) : ∀ a b : Ctx, sem (deepMerge a b) ps = mergeSem (sem a) (sem b) ps := by
+  induction ps with
+  | nil =>
+    intro a b
+    cases a <;> cases b <;> simp [sem, getPath, mergeSem, deepMerge, shape]
+  | cons k r ih =>
+    intro a b
+    cases a with
+    | leaf v => simp [deepMerge, mergeSem, sem, getPath, shape]
+    | obj da =>
+      cases b with
+      | leaf w => simp [deepMerge, mergeSem, sem, getPath, shape]
+      | obj db =>
+        have hl := lookup_deepMerge da db k
+        simp only [items] at hl
+        have hroot : ∀ kvs : List (String × Ctx), sem (.obj kvs) [] = some none := fun _ => rfl
+        have hk : ∀ kvs : List (String × Ctx), sem (.obj kvs) [k] = (kvs.lookup k).map shape := by
+          intro kvs; rw [sem_cons_obj]; cases kvs.lookup k <;> rfl
+        cases hdm : deepMerge (.obj da) (.obj db) with
+        | leaf x => simp [deepMerge] at hdm
+        | obj m =>
+          rw [hdm] at hl
+          rw [sem_cons_obj, hl]
+          simp only [mergeSem, hroot, hk]
+          cases ha : da.lookup k with
+          | none =>
+            cases hb : db.lookup k with
+            | none => simp
+            | some w => simp [sem_cons_obj, hb]
+          | some v =>
+            cases hb : db.lookup k with
+            | none => simp [sem_cons_obj, ha]
+            | some w =>
+              simp only [Option.map_some]
+              rw [ih v w]
+              congr 1
+              · funext q; rw [sem_cons_obj, ha]
+              · funext q; rw [sem_cons_obj, hb]
+
+theorem mergeSem_congr (ps : List String) : ∀ fa fa' fb fb' : List String → Option (Option String),
+    (∀ q, fa q = fa' q) → (∀ q, fb q = fb' q) → mergeSem fa fb ps = mergeSem fa' fb' ps := by
+  intro fa fa' fb fb' ha hb
+  have e1 : fa = fa' := funext ha
+  have e2 : fb = fb' := funext hb
+  rw [e1, e2]
+
+/-- Two contexts that denote the same value at every path -/
+def ExtEq (a b : Ctx) : Prop := ∀ ps, sem a ps = sem b ps
+
+theorem deepMerge_extEq (a a' b b' : Ctx) (ha : ExtEq a a') (hb : ExtEq b b') :
+    ExtEq (deepMerge a b) (deepMerge a' b') := by
+  intro ps
+  rw [sem_deepMerge, sem_deepMerge]
+  exact mergeSem_congr ps _ _ _ _ ha hb
+
+
+theorem lookup_perm (kvs kvs' : List (String × Ctx)) (hn : (kvs.map (·.1)).Nodup) (hp : kvs.Perm kvs') (k : String) :
+    kvs.lookup k = kvs'.lookup k := by
+  have hn' : (kvs'.map (·.1)).Nodup := (hp.map (·.1)).nodup_iff.mp hn
+  cases h : kvs.lookup k with
+  | some v =>
+    have := lookup_of_mem_nodup kvs' hn' (k, v) (hp.mem_iff.mp (mem_of_lookup h))
+    exact this.symm
+  | none =>
+    have hk : k ∉ kvs'.map (·.1) := fun hm => (lookup_none_iff k kvs).mp h ((hp.map (·.1)).mem_iff.mpr hm)
+    exact ((lookup_none_iff k kvs').mpr hk).symm
+
+/-- Reordering the keys of a mapping does not change what any path denotes. -/
+theorem extEq_of_perm (kvs kvs' : List (String × Ctx)) (hn : (kvs.map (·.1)).Nodup) (hp : kvs.Perm kvs') :
+    ExtEq (.obj kvs) (.obj kvs') := by
+  intro ps
+  cases ps with
+  | nil => rfl
+  | cons k r => rw [sem_cons_obj, sem_cons_obj, lookup_perm kvs kvs' hn hp k]
+
+
+theorem getPath_append (c : Ctx) (ps qs : List String) :
+    getPath c (ps ++ qs) = match getPath c ps with
+                           | some x => getPath x qs
+                           | none => none := by
+  induction ps generalizing c with
+  | nil => simp [getPath]
+  | cons p ps ih =>
+    cases c with
+    | leaf v => simp [getPath]
+    | obj kvs =>
+      simp only [List.cons_append, getPath]
+      cases kvs.lookup p with
+      | none => rfl
+      | some v => exact ih v
+
+/-- Contexts that agree on every path give `get_context_value` results that agree on every path
+(equal non-mappings, or mappings that again agree everywhere), and the default in the same cases. -/
+theorem extEq_getPath (a b : Ctx) (h : ExtEq a b) (ps : List String) :
+    match getPath a ps, getPath b ps with
+    | some x, some y => ExtEq x y
+    | none, none => True
+    | _, _ => False := by
+  have h0 := h ps
+  simp only [sem] at h0
+  cases ha : getPath a ps with
+  | none =>
+    cases hb : getPath b ps with
+    | none => trivial
+    | some y => simp [ha, hb] at h0
+  | some x =>
+    cases hb : getPath b ps with
+    | none => simp [ha, hb] at h0
+    | some y =>
+      intro qs
+      have := h (ps ++ qs)
+      simp only [sem, getPath_append, ha, hb] at this
+      exact this
+
 end RedunModel.Context
